@@ -314,6 +314,13 @@ class UnaryFunctionRelation(AbstractBaseRelation, SimpleRepr):
     def function(self) -> Callable[[Any], Union[float, int]]:
         return self._rel_function
 
+    def _value(self, val):
+        if isinstance(self._rel_function, ExpressionFunction):
+            # ExpressionFunction only accepts keyword arguments
+            arg_name, = self._rel_function.variable_names
+            return self._rel_function(**{arg_name: val})
+        return self._rel_function(val)
+
     def slice(self, partial_assignment: Dict[str, object]) -> RelationProtocol:
         if not partial_assignment:
             return self
@@ -323,7 +330,7 @@ class UnaryFunctionRelation(AbstractBaseRelation, SimpleRepr):
                 raise ValueError("Unknown variable when slicing UnaryRelation")
 
             name = self._name + "_" + v_name
-            return ZeroAryRelation(name, self._rel_function(partial_assignment[v_name]))
+            return ZeroAryRelation(name, self._value(partial_assignment[v_name]))
 
         raise ValueError("Too many variables when slicing UnaryRelation")
 
@@ -331,12 +338,12 @@ class UnaryFunctionRelation(AbstractBaseRelation, SimpleRepr):
 
         if isinstance(assignment, list):
             if len(assignment) == 1:
-                return self._rel_function(assignment[0])
+                return self._value(assignment[0])
             raise ValueError(
                 "Need exactly one argument to get a value from an" " UnaryRelation"
             )
         elif isinstance(assignment, dict):
-            return self._rel_function(assignment[self._variable.name])
+            return self._value(assignment[self._variable.name])
 
         raise ValueError("Assignment must be a list or a dict.")
 
@@ -347,9 +354,9 @@ class UnaryFunctionRelation(AbstractBaseRelation, SimpleRepr):
 
     def __call__(self, *args, **kwargs):
         if len(args) == 1:
-            return self._rel_function(args[0])
+            return self._value(args[0])
         elif len(kwargs) == 1:
-            return self._rel_function(kwargs[self._variable.name])
+            return self._value(kwargs[self._variable.name])
         raise ValueError(
             "Need exactly one argument to get a value from an " "UnaryRelation"
         )
